@@ -239,7 +239,12 @@ impl Property for C10 {
                         if let Ok(sq) = r.append(&e) { active_name = Some(format!("wal-{:08x}.wal", sq)); extra = Some((e.data.clone(), 3)); }
                     }
                     let before = match r.recover_all_entries() { Ok(b) => b, Err(_) => continue };
-                    if let Err(e) = r.truncate_before(*t) { rep.violate("C10/truncate-error", e.to_string()); break; }
+                    // one transient read error while truncation looks at the files: a file it cannot read must stay
+                    let flaky = fnv(*t, &[active as u8, 3]) % 3 == 0;
+                    if flaky { st.inner.lock().unwrap().fail_open_read_in = Some(fnv(*t, &[7]) % (img.len() as u64 + 1)); }
+                    let tr = r.truncate_before(*t);
+                    { let mut d = st.inner.lock().unwrap(); if d.read_errors_fired > 0 { d.read_errors_fired = 0; rep.fault("wal_read_error_during_truncation"); rep.probe("truncation_met_unreadable_file"); } d.fail_open_read_in = None; }
+                    if let Err(e) = tr { if !flaky { rep.violate("C10/truncate-error", e.to_string()); break; } }
                     let after = match r.recover_all_entries() { Ok(b) => b, Err(e) => { rep.violate("C10/recover-error-after-truncate", e.to_string()); break; } };
                     if let Some(an) = &active_name {
                         if !st.exists(an).unwrap_or(false) { rep.violate("C10/truncate-removed-active-file", format!("truncate_before({}) deleted the active file {}", t, an)); break; }
